@@ -203,7 +203,7 @@ func replayFile(t *testing.T, out *workerOut) {
 	}
 	eng := engineFor(plan.Prop)
 	fmt.Fprintf(os.Stderr, "VERIF-SEED %d BEGIN\n", plan.Seed)
-	res := eng.Run(plan)
+	res := runWatched(eng, plan, out) // a hang ends the process with the hang violation in the worker output
 	fmt.Fprintf(os.Stderr, "VERIF-SEED %d END\n", plan.Seed)
 	out.Evaluations = 1
 	out.LogHashes["replay"] = res.LogHash
